@@ -60,6 +60,8 @@ def synthetic(rng):
     towers = [{"name": nm, "lat": float(50 + 0.001 * (k + 1) + rng.uniform(0, 1e-4)), "lon": float(11 - 0.002 * (k + 1)), "z_m": float(3 + 2.5 * k)} for k, nm in enumerate(names)]
     met = {"mol": [float(-50.0 - 7 * i) for i in range(ns)], "wind_speed": [float(2.0 + 0.5 * i) for i in range(ns)],
            "wind_dir": [float(200.0 + 11 * i) for i in range(ns)]}
+    if rng.random() < 0.3:  # directions as loggers and arithmetic produce them: exactly 360, negative, beyond a full turn
+        met["wind_dir"] = [float(rng.choice([360.0, -15.0, 450.0, 359.999, 720.0, -0.0])) for _ in range(ns)]
     if forcing == "ustar":
         met["ustar"] = [float(0.3 + 0.05 * i) for i in range(ns)]
     else:
@@ -177,8 +179,19 @@ def run_case(case):
         viol.append(dict(what=what, **d, set=desc))
 
     path = case.get("_path") or os.path.abspath(f"c18_{case['source']}_{case['idx']}.nc")
+    sibling = None
+    if case["idx"] % 3 == 1 and not case.get("_second"):
+        # file names as a parameter sweep produces them: no .nc ending, dots inside, two exports that differ only after the last dot
+        path = os.path.abspath(f"c18_{case['source']}_{case['idx']}_z0_0.05")
+        sibling = os.path.abspath(f"c18_{case['source']}_{case['idx']}_z0_0.1")
     try:
         save_footprints_to_netcdf(results, cfg, path)
+        if sibling:
+            with warnings.catch_warnings():
+                warnings.simplefilter("ignore")
+                cfg_b, results_b, _ = synthetic(gen.rng_for(case["seed"], "C18sib", case["idx"]))
+            save_footprints_to_netcdf(results_b, cfg_b, sibling)
+            counters["sibling_exports"] = 1
         ds = load_footprints_from_netcdf(path)
     except Exception as e:  # noqa
         bad("save_or_load_raises", exc=repr(e)[:300])
@@ -250,6 +263,14 @@ def run_case(case):
         bad("loaded_dataset_lacks_labels_of_the_saved_set", exc=f"{type(e).__name__}: {str(e)[:200]}")
     finally:
         ds.close()
+        if sibling:
+            import glob as _glob
+
+            for f_ in _glob.glob(os.path.dirname(path) + f"/c18_{case['source']}_{case['idx']}_z0_0*"):
+                try:
+                    os.unlink(f_)
+                except OSError:
+                    pass
         try:
             os.unlink(path)
         except OSError:
